@@ -12,7 +12,7 @@ LEVEL = 'exploration'
 DESIGN_REF = '3.14'
 CHUNK = 400
 RULE = ('two parts, reported separately in `batches`. (1) key equality, sequential on one loop: every ordered pair of call signatures '
-        'from a small domain (positional tuples of length 0..2 over {1, 1.0, True, "a", (1,)} x keyword dicts of 0..2 names in every '
+        'from a small domain (positional tuples of length 0..2 over {1, 1.0, True, "a", (1,), (), (1, "a")} x keyword dicts of 0..2 names in every '
         'insertion order over values {1, "a"}; thorough adds sampled length-3 / 3-name / 3-value signatures), realised as '
         'equal-but-distinct objects, called sig1, sig2, sig1: invocation count and result tags must follow the statement\'s equality '
         '(positional equal in order, keywords equal as a set of pairs). This part has no schedule in it; it is enumerated, not '
@@ -64,6 +64,14 @@ class KeyCacheWorld(cw.CacheWorld):
     def judge(self):
         super().judge()
         prog = self.prog
+        if self.evictions:
+            # a call made after an eviction that never completes = the recomputation the statement promises never happens
+            for v in list(self.violations):
+                if v['property'] == 'C05' and v['oracle'] in ('cache.livelock', 'cache.deadlock', 'cache.never_finishes'):
+                    self.viol('C14', 'cache.no_recomputation_after_eviction',
+                              'after an eviction a caller never completes instead of causing one recomputation',
+                              f'evictions at steps {self.evictions}; {v["detail"]}')
+                    break
         clean = not any(t['life'] == 'early' or 'stop_at' in t for t in prog['threads']) and \
             all(f['kind'] == 'evict' for f in prog['faults']) and all(i['out'] == 'value' for i in prog['invs'])
         store = self.cache
